@@ -1,7 +1,9 @@
 package main
 
 import (
+	"encoding/binary"
 	"fmt"
+	"hash/fnv"
 	"math"
 
 	"gonum.org/v1/gonum/blas"
@@ -360,7 +362,27 @@ func (cs *Case) eigValuesCheck(routine, tag string, a *ref.M, wr, wi []float64) 
 	accept := limits["eig-backward-error"] * fn * eps * scale * 0.5
 	var worst float64
 	var wl int
-	for _, i := range cs.h.eigSample(cs.rng, wi) {
+	// The option combinations of one case mostly return bit-identical
+	// spectra for the same matrix: the backward errors of a (matrix,
+	// spectrum) pair are evaluated once per case.
+	hk := fnv.New64a()
+	var b8 [8]byte
+	for _, arr := range [][]float64{a.D, wr, wi} {
+		for _, v := range arr {
+			binary.LittleEndian.PutUint64(b8[:], math.Float64bits(v))
+			hk.Write(b8[:])
+		}
+	}
+	if cs.beSeen == nil {
+		cs.beSeen = map[uint64]bool{}
+	}
+	sample := cs.h.eigSample(cs.rng, wi)
+	if cs.beSeen[hk.Sum64()] {
+		sample = nil
+		cs.h.c.Count("eig_backward_error_reused_for_identical_spectrum", 1)
+	}
+	cs.beSeen[hk.Sum64()] = true
+	for _, i := range sample {
 		be := eigBackwardError(as, wrs[i], wis[i], accept)
 		if math.IsNaN(be) {
 			be = math.Inf(1)
